@@ -408,7 +408,8 @@ def replay_panic(path, d, steps, backend='vm', scheduler=False):
 def selftest(path, mir_paths, steps, seed, scheduler=False):
     """run mirsym-VM and wasmsym with concrete inputs and compare bit-for-bit with the real runtimes"""
     import random
-    rng = random.Random(seed * 7919 + hash(os.path.basename(path)) % 1000)
+    import zlib
+    rng = random.Random(seed * 7919 + zlib.crc32(os.path.basename(path).encode()) % 1000)
     an = ProgramAnalysis(path, mir_paths, steps=steps, scheduler=scheduler)
     if not an.compile():
         return dict(program=an.name, status='rejected')
@@ -459,9 +460,15 @@ def selftest(path, mir_paths, steps, seed, scheduler=False):
                     elif len(mine) != len(theirs) or any(not same_word(a, b) for a, b in zip(mine, theirs)):
                         mism.append('%s step %d: encoder %s real %s' % (tag, k, mine, theirs))
     elif status == 'panic':
-        rv, rw = real.get('vm', {}), real.get('wasm', {})
-        if not (rv.get('panic') or rw.get('panic') or rv.get('crash') or rw.get('crash') or rv.get('timeout') or rw.get('timeout')):
-            mism.append('encoder reports panic %r but the real runtimes ran through' % (res[0][1],))
+        # the encoders model the dev profile (overflow checks, debug_assert); compare with the dev build of the real code too
+        bad = False
+        for dbg in (False, True):
+            rr = real if not dbg else common.replay(dict(src_path=path, backend='both', scheduler=scheduler, steps=steps, inputs=rows, timeout_s=20), debug=True)
+            rv, rw = rr.get('vm', {}), rr.get('wasm', {})
+            if rv.get('panic') or rw.get('panic') or rv.get('crash') or rw.get('crash') or rv.get('timeout') or rw.get('timeout'):
+                bad = True
+        if not bad:
+            mism.append('encoder reports panic %r but the real runtimes (release and dev) ran through' % (res[0][1],))
     else:
         return dict(program=an.name, status=status, detail=str(res[0][1]) if res else '', inputs=rows)
     return dict(program=an.name, status='mismatch' if mism else 'match', mismatches=mism[:6], inputs=rows)
